@@ -118,6 +118,21 @@ def check(c) -> list[Result]:
             return True, f"real shuffle raises {type(e).__name__}: {str(e)[:200]}"
         want = pd.concat(parts)
         allrows = pd.concat(got)
+        if c["subset"] is not None:
+            try:
+                c_full = dict(c, subset=None)
+                on = {"a": "a", "ab": ["a", "b"], "index": None}[c["on"]]
+                kw = dict(npartitions=c["n_out"], max_branch=c["mb"], shuffle_method=c["method"], ignore_index=c["ignore_index"])
+                full_q = df.shuffle(on_index=True, **kw) if c["on"] == "index" else df.shuffle(on, **kw)
+                full = prun.concrete_parts(optimize(full_q.expr, fuse=False))
+            except Exception as e:
+                return None, f"full shuffle fails: {type(e).__name__}: {e}"
+            if len(got) != len(c["subset"]):
+                return True, f"{len(got)} partitions for {len(c['subset'])} requested"
+            for j, pnum in enumerate(c["subset"]):
+                same, msg = conc.same_pandas(full[pnum].reset_index(drop=True), got[j].reset_index(drop=True), False, False)
+                if not same:
+                    return True, f"requested output {pnum} (position {j}) differs from partition {pnum} of the full shuffle: {msg}"
         if c["subset"] is None:
             same, msg = conc.same_pandas(want.reset_index(drop=True), allrows.reset_index(drop=True), False, False)
             if not same:
@@ -273,4 +288,43 @@ def check_cross_frame(tier):
                 results.append(Result(name, VIOLATION if bad else HARNESS_ERROR, name, f"model: equal keys may land in different partitions; replay: keys {bad} differ" if bad else "model counterexample does not reproduce", {"engine": "P", "kind": "cross-frame"}, dt, 1))
             else:
                 results.append(Result(name, INCONCLUSIVE, "", "z3 unknown", None, dt, 1))
+    # multi-column keys: the partition number of a key tuple must not depend on where the key columns sit in the frame
+    for n_out in (2, 3) if tier == "quick" else (2, 3, 5, 7):
+        name = f"cross-frame(n_out={n_out}, key=['a','b'], different column layouts)"
+        prog = prun.Program("x", [prun.Src("L", 2, {"a": "i", "b": "i", "v": "i"}, 2, how="delayed", cuts=(0, 1, 2)), prun.Src("R", 2, {"w": "i", "b": "i", "a": "i"}, 2, how="delayed", cuts=(0, 1, 2))])
+        env, frames = prun.make_env(prog)
+        assign = {}
+        try:
+            for nm in ("L", "R"):
+                pdf = frames[nm]
+                df = dx.from_delayed([delayed(pdf.iloc[i:i + 1]) for i in range(len(pdf))], meta=pdf.iloc[:0], verify_meta=False)
+                plan = optimize(df.shuffle(["a", "b"], npartitions=n_out).expr, fuse=False)
+                parts, it = run_graph(plan, env)
+                assign.update(_assignment(plan, it))
+            L, R = env.convert(frames["L"]), env.convert(frames["R"])
+            conds = []
+            for i in range(2):
+                for j in range(2):
+                    same = And(L.col("a").cell(i).num() == R.col("a").cell(j).num(), L.col("b").cell(i).num() == R.col("b").cell(j).num())
+                    conds.append(z3.Implies(same, assign[("L", i)] == assign[("R", j)]))
+            r, model, dt = prun.solve(env.constraints, z3.Not(z3.And(*conds)))
+        except Exception as e:
+            results.append(Result(name, SKIPPED, "", f"{type(e).__name__}: {e}", extra={"unsupported": str(e)}))
+            continue
+        if r == "unsat":
+            results.append(Result(name, HELD, "", "unsat: equal key tuples get the same partition number whatever the column layout", None, dt, 1))
+        elif r == "sat":
+            import pandas as pd
+
+            keys = [(a, b) for a in range(4) for b in range(4)]
+            l = pd.DataFrame({"a": [k[0] for k in keys], "b": [k[1] for k in keys], "v": 0})
+            rr = pd.DataFrame({"w": 0, "b": [k[1] for k in keys], "a": [k[0] for k in keys]})
+            pl = prun.concrete_parts(optimize(dx.from_pandas(l, npartitions=2).shuffle(["a", "b"], npartitions=n_out).expr))
+            pr = prun.concrete_parts(optimize(dx.from_pandas(rr, npartitions=2).shuffle(["a", "b"], npartitions=n_out).expr))
+            where = lambda parts, k: [j for j, g in enumerate(parts) if ((g.a == k[0]) & (g.b == k[1])).any()]
+            bad = [k for k in keys if where(pl, k) != where(pr, k)]
+            results.append(Result(name, VIOLATION if bad else HARNESS_ERROR, name, f"equal key tuples land in different partitions of the two frames, e.g. {bad[:3]}" if bad else "model counterexample does not reproduce",
+                                  {"engine": "P", "kind": "cross-frame-multi"}, dt, 1))
+        else:
+            results.append(Result(name, INCONCLUSIVE, "", "z3 unknown", None, dt, 1))
     return results
